@@ -275,6 +275,11 @@ impl GenSource {
         if owner.0.is_empty() {
             owner = Name::from_labels(&[b"example", b"com"]);
         }
+        if rng.chance(1, 12) {
+            // a label right at the text builders' length limit (which may accept or refuse it)
+            let l = *rng.pick(&[61usize, 62, 63, 64, 65]);
+            owner = Name(vec![vec![b'k'; l], b"example".to_vec()]);
+        }
         let (rtype, rdata) = if let Some(n) = big {
             (*rng.pick(&[16u16, 99]), rng.bytes(n))
         } else {
